@@ -33,6 +33,7 @@ import traceback
 from ..impl import c13_cfg as cfgk
 from ..translate import c13 as tr
 from ..translate import c13raise as tr_raise
+from ..translate import c13imports as tr_imp
 
 PROPERTY = "C13"
 THEOREM_MODULE = "NemoVerif.Theorems.C13"
@@ -60,6 +61,7 @@ ERR_TIMEOUT = float(os.environ.get("VERIF_C13_TIMEOUT", "10"))
 def translate():
     info = tr.run()
     info["raise_sites"] = tr_raise.run()
+    info.update(tr_imp.run())
     return info
 
 
@@ -1472,6 +1474,8 @@ def _edits_of(case, obs):
 
 def model_requests(case, obs):
     k = case["kind"]
+    if k == "cfg":
+        return cfgk.model_requests_cfg(case, obs)
     if obs.get("sweep"):
         return []
     if obs.get("version") == "2.x" and k in ("tok", "v2", "file"):
@@ -1591,6 +1595,8 @@ def _unsafe(x):
 
 def compare(case, obs, mouts):
     k = case["kind"]
+    if k == "cfg":
+        return cfgk.compare_cfg(case, obs, mouts)
     mouts = _unsafe(mouts)
     if obs.get("version") == "2.x" and k in ("tok", "v2", "file"):
         if mouts and "text" in mouts[-1]:
